@@ -220,6 +220,7 @@ def main(ck: Check):
     per_gear = {}
     rejected = 0
     perturbed = perturbed_answered = skipped_slow = 0
+    over_four = over_four_answered = 0
     slowest = 0.0
     truncated = False
     samples = []
@@ -311,6 +312,35 @@ def main(ck: Check):
                                     "gear_id": meta.id, "observed": stat.short_dict(), "returned": ans[1],
                                     "defects": bad})
             cases_here.append((gear, stat, ans, None, real.last_seconds))
+        # more than four options: sums of 5-7 valid distinct-kind options (half of them without any STR/DEX/INT/LUK
+        # component).  The inference may reject them, but whatever it returns must still be sound: at most four
+        # options, distinct kinds, valid grades, adding up exactly.
+        stat_kinds_set = {BonusType(t.value) for t in _stat_types}
+        non_stat = [k for k in KINDS if k not in stat_kinds_set]
+        gs5 = valid_grades(meta)
+        n_over = 40 if quick else 200
+        t_over = time.time()
+        for i in range(n_over):
+            if time.time() - t_over > pert_seconds:
+                break
+            size = prng.randint(5, 7)
+            pool = non_stat if (i % 2 == 0 and len(non_stat) >= size) else KINDS
+            size = min(size, len(pool))
+            opts = [(k, prng.choice(gs5)) for k in prng.sample(pool, size)]
+            try:
+                stat = real.observed(meta, opts)
+            except ValueError:
+                continue
+            ans, res = real.compute(stat, gear)
+            evaluations += 1
+            over_four += 1
+            if ans[0] == "value":
+                over_four_answered += 1
+                bad = soundness_defects(real, gear, stat, res)
+                if bad and len(ck.failing) < 40:
+                    ck.add_failing({"what": "answer on the sum of more than four options is not sound", "gear": gname,
+                                    "gear_id": meta.id, "options": [[k.value, g] for k, g in opts],
+                                    "observed": stat.short_dict(), "returned": ans[1], "defects": bad})
         per_gear[gname] = n_here
         # correspondence sample: all 1-kind sets, then a seeded sample of the rest (3-4-kind sets and perturbed
         # stats first: they exercise the search most)
@@ -433,6 +463,8 @@ def main(ck: Check):
         "option_sets_by_size": per_size,
         "valid_sets_rejected": rejected,
         "exploration_truncated_by_time_budget": truncated,
+        "sums_of_more_than_four_options": over_four,
+        "sums_of_more_than_four_options_answered": over_four_answered,
         "perturbed_stats": perturbed,
         "perturbed_stats_answered": perturbed_answered,
         "slowest_real_compute_s": round(slowest, 3),
